@@ -182,6 +182,17 @@ def body(ctx):
         got = rr.dev.fs.files.get('/q', {}).get('data')
         if rr.outcomes[1].kind == 'ret' and (got is None or len(got) != 70000):
             ctx.violation('C15.PeerGetsAll', dict(kind='short-writes', label='70 KB push, one byte per call', mode=mode, arrived=None if got is None else len(got)))
+    # 2b'. a sendall-style transport whose bulk_write returns None, and messages larger than 64 KiB
+    runs = []
+    for mode in ('sync', 'async'):
+        for md, size in ((262144, 200000), (1024 * 1024, 1500000)):
+            spec = dict(seed=ctx.seed + md, maxdata=md, rid='random', frag='whole', ops=[dict(api='push', path='/q', size=size, src='bytesio', mtime=7, read_timeout_s=1.0)])
+            rr = scen.run(dict(spec, connect_kw=dict(read_timeout_s=1.0)), mode, write_none=True)
+            runs.append((mode, spec, ['bulk_write returns None'], rr))
+            got = rr.dev.fs.files.get('/q', {}).get('data')
+            if rr.outcomes[1].kind == 'ret' and (got is None or len(got) != size):
+                ctx.violation('C15.PeerGetsAll', dict(kind='None-returning transport', mode=mode, maxdata=md, size=size, arrived=None if got is None else len(got)))
+    judge(ctx, runs, 'in-memory, bulk_write returns None, messages above 64 KiB', f1)
     # 2c. a write fails in the middle of a buffer (after a short write) and the transport works again: either the call raises, or
     #     the peer still got every byte - never a silent gap
     nruns = 0
@@ -200,7 +211,7 @@ def body(ctx):
                 ks = ks[::2] if cap == 7 else ks
             batch = []
             for k in ks:
-                for kind in ('timeout',) if ctx.quick else ('timeout', 'reset'):
+                for kind in ('timeout', 'blocking') if ctx.quick else ('timeout', 'reset', 'blocking', 'oserr'):
                     rr = scen.run(dict(spec0, connect_kw=dict(read_timeout_s=1.0)), mode, wcap=lambda n, c=cap: min(n, c), fault=transports.Fault(at={k: kind}))
                     batch.append((mode, spec0, ['always %d' % cap, 'fault %s at call %d' % (kind, k)], rr))
             nruns += len(batch)
